@@ -15,6 +15,10 @@ The complete list of what extraction drops/changes (reported with counts in ever
   N1  match arm `P1 | P2 if g => e`  ->  `P1 if g => e, P2 if g => e`   (only rewrite of executable text;
       before/after printed in evidence)
   N2  `for pat in expr`  ->  `for pat in NAME: expr`  (Verus syntax naming the ghost iterator; `loop k var=NAME`)
+  N4  `for PAT in EXPR { B }` -> `let mut IT = IntoIterator::into_iter(EXPR); loop { let PAT = match Iterator::next(&mut IT) { Some(v) => v, None => break }; B }`
+      (the Rust reference's definition of `for`, used where vstd has no for-loop model of the iterator type; `loop k desugar=IT`)
+  N3  `fn f(mut self, ..)` -> `fn f(self, ..) { let mut this = self; ..}` with `self` renamed to `this` in the body
+      (Verus does not support a `mut self` receiver; renaming a by-value binding is meaning-preserving; `mutself=this`)
   R1  `-> T` becomes `-> (r: T)` where the contract names the result (`ret=r`)
 Inserted text (contracts, invariants, proof blocks) never replaces source text.
 """
@@ -157,7 +161,7 @@ class Gen:
         self.lines = []      # (text, item_id or None, label or None, clause_kind or None)
         self.items = []
         self.drops = {'X2_attrs_dropped': 0, 'X3_bodies_dropped': 0, 'X4_opaque_types': 0, 'X5_hoisted': 0,
-                      'N1_arms_split': 0, 'N2_for_named': 0, 'R1_ret_named': 0}
+                      'N1_arms_split': 0, 'N2_for_named': 0, 'N3_mut_self': 0, 'N4_for_desugared': 0, 'R1_ret_named': 0}
         self.n1_log = []
 
     def emit(self, text, item=None, label=None, ckind=None):
@@ -337,6 +341,10 @@ def build_fn(gen, d):
     if 'ret' in opts:
         sig = name_return(sig, opts['ret'][0])
         gen.drops['R1_ret_named'] += 1
+    if 'mutself' in opts:
+        if not re.search(r'\(\s*mut\s+self\b', sig):
+            raise LostAnchor('%s: mutself given but receiver is not `mut self`' % name)
+        sig = re.sub(r'\(\s*mut\s+self\b', '(self', sig, count=1)
 
     rec = {'id': item_id, 'kind': 'fn', 'name': name, 'file': d.file, 'tags': tags, 'trusted': trusted,
            'src_lines': [src.count('\n', 0, it.kw) + 1, src.count('\n', 0, it.end) + 1],
@@ -380,6 +388,19 @@ def build_fn(gen, d):
                 mi = re.search(r'\bin\b', body_masked[p:o])
                 inserts.append((p + mi.end(), ' %s:' % lopts['var'][0], 'raw', None))
                 gen.drops['N2_for_named'] += 1
+            if 'desugar' in lopts:
+                if kw != 'for':
+                    raise Unsupported('%s: desugar= on a %s loop' % (name, kw))
+                itn = lopts['desugar'][0]
+                mi = re.search(r'\bin\b', body_masked[p:o])
+                pat = body[p + 3:p + mi.start()].strip()
+                expr = body[p + mi.end():o].strip()
+                cuts.append((p, o + 1))
+                inserts.append((p, 'let mut %s = IntoIterator::into_iter(%s); // N4\n        loop' % (itn, expr), 'raw', None))
+                inserts.append((p, None, 'invariant', b.lines))
+                inserts.append((p, '{\n            let %s = match Iterator::next(&mut %s) { Some(__v) => __v, None => break }; // N4' % (pat, itn), 'raw', None))
+                gen.drops['N4_for_desugared'] += 1
+                continue
             inserts.append((o, None, 'invariant', b.lines))
         elif b.kind == 'at':
             anchor = ' '.join(b.arg)
@@ -466,6 +487,20 @@ def build_fn(gen, d):
             else:
                 pieces.append(('ins', ev[2], ev[3]))
         pieces.append(('src', body[cur:]))
+        if 'mutself' in opts:
+            nm = opts['mutself'][0]
+            def ren(txt):
+                mk = mask(txt)
+                out, last = [], 0
+                for mm in re.finditer(r'\bself\b', mk):
+                    out.append(txt[last:mm.start()]); out.append(nm); last = mm.end()
+                out.append(txt[last:])
+                return ''.join(out)
+            pieces = [(p[0], ren(p[1])) if p[0] == 'src' else p for p in pieces]
+            # the first src piece starts with '{'
+            assert pieces[0][0] == 'src' and pieces[0][1].startswith('{')
+            pieces[0] = ('src', '{\n        let mut %s = self; // N3' % nm + pieces[0][1][1:])
+            gen.drops['N3_mut_self'] += 1
         if any(b.kind == 'n1' for b in d.blocks):
             # N1 applied on source pieces only
             pieces = [(p[0], split_n1(p[1], gen, name)) if p[0] == 'src' else p for p in pieces]
@@ -522,11 +557,15 @@ def build_type(gen, d):
         if generics:
             raise Unsupported('opaque generic type %s' % d.sel)
         gen.emit('#[verifier::external_body]', item_id)
+        gen.emit('#[verifier::external_derive]', item_id)
         for a in kept:
             if a.startswith('#[derive'):
                 gen.emit(a, item_id)
         gen.emit('pub struct %s { _opaque: () } // X4: fields of %s:%s not extracted' % (d.sel, d.file, d.sel), item_id)
     else:
+        if 'xderive' in d.opts:
+            # derived impls are compiled but left outside verification (their specs, if needed, are assumed explicitly)
+            gen.emit('#[verifier::external_derive]', item_id)
         for a in kept:
             gen.emit(a, item_id)
         body = src[kw_line_start:it.end]
